@@ -133,7 +133,8 @@ func c19Seq(fam sliceFamily, firstKey int) func(r *vp.InstResult) {
 				for port := 1; port <= 2; port++ {
 					for _, e := range []bool{false, true} {
 						k := nodeKind{id, port, e}
-						n, err := gorums.NewRawNodeWithID("127.0.0.1:"+strconv.Itoa(7000+port), id)
+						// port 1 = 9999, port 2 = 10000: the numeric order differs from the order of the digit strings
+						n, err := gorums.NewRawNodeWithID("127.0.0.1:"+strconv.Itoa(9998+port), id)
 						if err != nil {
 							mc.Fail("setup", "%v", err)
 							return
@@ -308,7 +309,7 @@ func kindsOf(ns []*gorums.RawNode, m map[*gorums.RawNode]nodeKind) string {
 
 func init() {
 	register(&Check{ID: "C19",
-		Rule: "enumeration on the real sorter over 8 node kinds (id in {1,2} x port in {1,2} x last error nil/set, built through the public constructors): (a) every slice of length 0..4 (quick) / 0..5 (thorough) x every key sequence of length 1..3 over {ID, Port, LastNodeError}; (b) beyond the size thresholds of the library sort (12, 50): every slice of length 13 (thorough: 13 and 14) over the 3-kind alphabet {1:1, 1:2!, 2:2}, which has a tie under every key whose members differ under the other keys, x one two-key sequence per first key (thorough: every key sequence of length 1..3); (c) every pattern of period 1..3 over the 8 kinds repeated to lengths 13, 24, 51, 64 x every key sequence of length 1..3; plus the strict-weak-ordering axioms of each key on all pairs and triples; oracle: the result is a permutation of the input and adjacent elements are in lexicographic order of the reference key values; states = distinct input slices",
+		Rule: "enumeration on the real sorter over 8 node kinds (id in {1,2} x port in {9999, 10000} - written 1 and 2 below; their numeric order differs from the order of their digit strings - x last error nil/set, built through the public constructors): (a) every slice of length 0..4 (quick) / 0..5 (thorough) x every key sequence of length 1..3 over {ID, Port, LastNodeError}; (b) beyond the size thresholds of the library sort (12, 50): every slice of length 13 (thorough: 13 and 14) over the 3-kind alphabet {1:1, 1:2!, 2:2}, which has a tie under every key whose members differ under the other keys, x one two-key sequence per first key (thorough: every key sequence of length 1..3); (c) every pattern of period 1..3 over the 8 kinds repeated to lengths 13, 24, 51, 64 x every key sequence of length 1..3; plus the strict-weak-ordering axioms of each key on all pairs and triples; oracle: the result is a permutation of the input and adjacent elements are in lexicographic order of the reference key values; states = distinct input slices",
 		Gen: func(tier string) []Instance {
 			l := 4
 			if thorough(tier) {
